@@ -342,7 +342,10 @@ def judgePuts (sc : Scenario) (evs : List (Proc × Ev)) : List String :=
 
 def factsTag (f : String) : List String :=
   if f == "ok" then [] else
-  ((f.drop 4).toString.splitOn ",").map fun x =>
+  ((f.drop 4).toString.splitOn ",").flatMap fun x =>
+    -- (C06: "Subscribe returns the subscriber's own … error if one occurred"; C17: "… and gets the error from Subscribe")
+    if x.startsWith "SUBSCRIBE-DROPPED-JOES-VERDICT" then ["C06:" ++ x, "C17:" ++ x] else
+    List.singleton <|
     if x.startsWith "CALL-AFTER-RETURN" then "C06:" ++ x
     else if x.startsWith "REPLAYER-USED-AFTER-PANIC" || x.startsWith "REJECTED-WITHOUT-REPLAY-ERROR"
       || x.startsWith "REGISTERED-DESPITE-REPLAY-ERROR" then "C17:" ++ x
